@@ -243,7 +243,7 @@ func (d *driver) genesis(c cfg, txs []txop) error {
 	out["h"] = 0
 	out["parts"] = parts
 	d.w.NewTraceWith("New", M{"ewl": c.EwlSize, "buf": c.BufLen, "q": c.Queue, "lvl": c.Level, "hold": c.HolderMax,
-		"snaps": c.MaxSnaps, "cpmod": c.CpMod, "clean": b2i(d.clean)}, out, st)
+		"snaps": c.MaxSnaps, "cpmod": c.CpMod, "clean": b2i(d.clean), "f3": b2i(codeSkipsOutdatedCancel())}, out, st)
 	return nil
 }
 
@@ -548,4 +548,44 @@ func (d *driver) jobObs() M {
 		ps = append(ps, m)
 	}
 	return M{"idle": b2i(idle), "done": js, "parked": ps}
+}
+
+// codeSkipsOutdatedCancel observes, once per process, which variant of storagePruningManager is under test: does a
+// CancelPrune(parent, OldRoot) that was buffered by a rollback while pruning was blocked still evict the entry that
+// the next block on the same parent registered under that key (code before the repair of D3) or is it skipped?
+// Observation: after  commit 1; Enter; rollback 1; commit 1'; Exit; commit 2'; finalize 1'  the genesis root node is
+// deleted by the prune of the genesis root's old hashes iff the re-registered entry survived the buffered cancel.
+var f3Probe struct {
+	done bool
+	val  bool
+}
+
+func codeSkipsOutdatedCancel() bool {
+	if f3Probe.done {
+		return f3Probe.val
+	}
+	f3Probe.done = true
+	w, err := vtrace.NewWriter(os.DevNull)
+	if err != nil {
+		return false
+	}
+	d, err := newDriver(defaultCfg(), w)
+	if err != nil {
+		return false
+	}
+	if d.genesis(defaultCfg(), nil) != nil {
+		return false
+	}
+	g := append([]byte(nil), d.chain[0].root...)
+	steps := []op{{Op: "commit", Txs: []txop{}}, {Op: "enter"}, {Op: "rollback"}, {Op: "commit", Txs: []txop{}}, {Op: "exit"},
+		{Op: "commit", Txs: []txop{}}, {Op: "finalize"}}
+	for _, o := range steps {
+		if d.do(o, nil) != nil {
+			return false
+		}
+	}
+	f3Probe.val = !d.s.db.has(g)
+	_ = d.finish()
+	_ = w.Close()
+	return f3Probe.val
 }
